@@ -5,6 +5,7 @@ import rsmchecks
 import logstore
 import c12
 import c15
+import c14
 
 CHECKS = {}
 CHECKS["RAFT"] = raftfamily.check_all
@@ -16,6 +17,7 @@ CHECKS["C08"] = rsmchecks.check_c08
 
 CHECKS["C12"] = c12.check
 CHECKS["C15"] = c15.check
+CHECKS["C14"] = c14.check
 CHECKS["C09"] = logstore.check_c09
 CHECKS["C10"] = logstore.check_c10
 
